@@ -65,6 +65,9 @@ void utils(const arr_real& a, const arr_cmplx& c) {
     (void)concatenate(a, a, a); (void)concatenate(c, c); (void)zeropad(a, 4); (void)zeropad(c, 4); (void)delayseq(a, 1);
     (void)arange(0, 10, 3); (void)arange(10); (void)arange(0.0, 1.0, 0.1);
 }
+void audio() {
+    Compressor c; (void)c.process(arr_real(4)); Limiter l; (void)l.process(arr_real(4)); NoiseGate g; (void)g.process(arr_real(4));
+}
 void stateful() {
     LmsFilter<real_t> l1(4, 0.1); LmsFilter<cmplx_t> l2(4, 0.1);
     RlsFilter<real_t> r1(4); RlsFilter<cmplx_t> r2(4);
